@@ -30,7 +30,8 @@ def handle (ws : List String) : String :=
       | .ok trees => s!"ok {trees.length} " ++ " ".intercalate (trees.map NTree.render)
       | .err e => "parse:" ++ (match e with
           | .eos => "eos" | .unterminated => "unterminated" | .malformed => "malformed" | .incomplete => "incomplete"
-          | .duplicate => "duplicate" | .nexus => "nexus" | .data => "data")
+          | .duplicate => "duplicate" | .nexus => "nexus" | .data => "data"
+          | .tooManyTaxa => "toomany" | .undefinedTaxon => "undefined")
       | .internal w => "internal " ++ w
   | ["phylip", strict, inter, syms, text] =>
     match decodeText syms, decodeText text with
@@ -53,6 +54,8 @@ def handle (ws : List String) : String :=
         " sets=" ++ "/".intercalate ((List.range s.mats.length).map (fun i =>
           ".".intercalate ((s.charsets.filter (fun c => c.1 == i)).map (fun c => toString c.2.2)))) ++
         s!" rounds={nexusFuel cs.length - s.fuel}/{nexusFuel cs.length}"
+      | .error (.parse .tooManyTaxa) => "parse:toomany"
+      | .error (.parse .undefinedTaxon) => "parse:undefined"
       | .error (.parse _) => "parse"
       | .error (.internal w) => "internal " ++ w
       | .error .fuel => "internal out of fuel"
